@@ -257,7 +257,7 @@ def _run_one(args):
             [sys.executable, "-m", "pta.check", prop, "--repo", str(tmp),
              "--no-evidence", "--tier", "quick"],
             cwd=str(VERIF), capture_output=True, text=True, timeout=600,
-            env=dict(os.environ, PYTHONPATH=str(VERIF)))
+            env=dict(os.environ, PYTHONPATH=str(VERIF), PTA_IN_SELFTEST="1"))
         out = r.stdout
         if v["kind"] == "break":
             ok = r.returncode == 1 and (not v.get("expect_rule")
